@@ -24,6 +24,7 @@ class C03(flow.Spec):
             "apply and clear. Observation after every step per version: visible rows, buffered seqs, seq rows, in-memory partial, "
             "known, apply triggers. Oracle atomic_vis (Coq): nothing visible before the received ranges cover 0..=last_seq, then "
             "everything. non-trivial = distinct script with >=2 chunks")
+    # a version that an Empty changeset declared cleared is out of the atomic-visibility oracle
     assumptions = ["cr-sqlite's merge is abstracted to 'the change row becomes visible' (payloads are distinct rows, one per seq)",
                    "arrivals grouped one per batch in the exhaustive part; multi-change batches are exercised through C10/C01",
                    "KNOWN FINDING candidates are not raised here: see DESIGN.md (Empty changeset for a partially held version)"]
@@ -72,8 +73,10 @@ class C03(flow.Spec):
                     if rnd.random() < 0.08:
                         l2 = max(e, last - 1); tags.add("other-last")
                     ops.append(self.d(v, s, e, l2, seqs))
-                elif x < 0.85:
+                elif x < 0.8:
                     ops.append("A %d" % v)
+                elif x < 0.88:
+                    ops.append("Z %d" % v); tags.add("empty-over-partial")
                 else:
                     ops.append("C")
             out.append(("part %d %s" % (len(ops), " ".join(ops)), tags))
@@ -97,8 +100,8 @@ class C03(flow.Spec):
                 v, s, e, last, k = map(int, t[i + 1:i + 6])
                 seqs = list(map(int, t[i + 6:i + 6 + k]))
                 ops.append(("D", v, s, e, last, seqs)); i += 6 + k
-            elif t[i] == "A":
-                ops.append(("A", int(t[i + 1]))); i += 2
+            elif t[i] in ("A", "Z"):
+                ops.append((t[i], int(t[i + 1]))); i += 2
             else:
                 ops.append(("C",)); i += 1
         steps = impl_obs.split(" # ")
@@ -110,6 +113,8 @@ class C03(flow.Spec):
             dl = [o for o in ops if o[0] == "D" and o[1] == v]
             lasts = {o[4] for o in dl}
             if len(lasts) != 1 or any(o[5] != list(range(o[2], o[3] + 1)) for o in dl):
+                continue
+            if any(o[0] == "Z" and o[1] == v for o in ops):
                 continue
             last = lasts.pop()
             got = set()
